@@ -122,6 +122,46 @@ impl<T> Mutex<T> {
     }
 }
 
+impl<T> Mutex<T> {
+    pub fn get_mut(&mut self) -> Result<&mut T, LockError> {
+        self.inner.get_mut().map_err(|_| LockError("poisoned"))
+    }
+
+    pub fn into_inner(self) -> Result<T, LockError> {
+        self.inner.into_inner().map_err(|_| LockError("poisoned"))
+    }
+
+    pub fn is_poisoned(&self) -> bool {
+        self.inner.is_poisoned()
+    }
+}
+
+impl<T> From<T> for Mutex<T> {
+    fn from(value: T) -> Self {
+        Self::new(value)
+    }
+}
+
+impl<T> RwLock<T> {
+    pub fn get_mut(&mut self) -> Result<&mut T, LockError> {
+        self.inner.get_mut().map_err(|_| LockError("poisoned"))
+    }
+
+    pub fn into_inner(self) -> Result<T, LockError> {
+        self.inner.into_inner().map_err(|_| LockError("poisoned"))
+    }
+
+    pub fn is_poisoned(&self) -> bool {
+        self.inner.is_poisoned()
+    }
+}
+
+impl<T> From<T> for RwLock<T> {
+    fn from(value: T) -> Self {
+        Self::new(value)
+    }
+}
+
 impl<T> Deref for MutexGuard<'_, T> {
     type Target = T;
     fn deref(&self) -> &T {
